@@ -658,7 +658,8 @@ def model_line(case, impl):
         if ev[0] == 'a':
             toks.append('a/%s/%s' % (_mname(ev[1]), '~' if ev[2] is None else ev[2]))
         elif ev[0] == 'd':
-            toks.append('d/' + _mname(ev[1]))
+            # the legacy unregister() coroutine removes the callback if there is one and never raises (fixed in /repo)
+            toks.append(('u/' if len(ev) > 2 and str(ev[2]).endswith('@unregister') else 'd/') + _mname(ev[1]))
         elif ev[0] == 'r':
             continue          # folded into the token of the Interest it answers (the model's closure is a pure function)
         else:
